@@ -9,6 +9,7 @@ import (
 	"time"
 
 	"github.com/Cloud-Foundations/keymaster/lib/webapi/v0/proto"
+	"golang.org/x/oauth2"
 )
 
 func vfFormPost(path string, form url.Values) *http.Request {
@@ -82,12 +83,30 @@ func TestVerifC17(t *testing.T) {
 		} else {
 			locs = append(locs, "bootstrap=STATUS"+http.StatusText(hr.Code))
 		}
-		// 3c. federated login: destination parked at /auth/oauth2/login, used at the callback
-		oreq := vfFormPost(oauth2LoginBeginPath, form2)
-		pendingDest := getLoginDestination(oreq)
-		orr := httptest.NewRecorder()
-		http.Redirect(orr, oreq, pendingDest, 302)
-		locs = append(locs, "oauth2="+vfHex(orr.Header().Get("Location")))
+		// 3c. federated login through the real handlers: the destination is parked at
+		// /auth/oauth2/login and used by the callback (stub IdP of the repo's own tests on :12345)
+		state.Config.Oauth2.Enabled = true
+		state.Config.Oauth2.Config = &oauth2.Config{ClientID: "vf", ClientSecret: "vf",
+			Endpoint:    oauth2.Endpoint{AuthURL: "http://localhost:12345/auth", TokenURL: "http://localhost:12345/token"},
+			RedirectURL: "https://keymaster.example.com" + redirectPath}
+		state.Config.Oauth2.UserinfoUrl = "http://localhost:12345/userinfo"
+		oloc := "oauth2=STATUSbegin"
+		if br, p := vfServe(state.oauth2DoRedirectoToProviderHandler, vfFormPost(oauth2LoginBeginPath, form2)); p == nil && br.Code == 302 {
+			if u, err := url.Parse(br.Header().Get("Location")); err == nil {
+				cb := httptest.NewRequest("GET", redirectPath+"?code=x&state="+url.QueryEscape(u.Query().Get("state")), nil)
+				for _, c := range br.Result().Cookies() {
+					cb.AddCookie(c)
+				}
+				if cr, p := vfServe(state.oauth2RedirectPathHandler, cb); p != nil {
+					oloc = "oauth2=PANIC"
+				} else if cr.Code == 302 {
+					oloc = "oauth2=" + vfHex(cr.Header().Get("Location"))
+				} else {
+					oloc = "oauth2=STATUS" + http.StatusText(cr.Code)
+				}
+			}
+		}
+		locs = append(locs, oloc)
 		io.emit("%s %s %s %d %s", vfHex(filtered), vfHex(direct), vfBool(parseOK), len(locs), strings.Join(locs, " "))
 	}
 }
